@@ -2371,6 +2371,19 @@ class ColFn(ColExpr):
         if filters := self.context_kwargs.get("filter"):
             if len(self.args) == 0:
                 assert self.op == ops.count_star
+                # count the rows that satisfy the filter
+                self.op = ops.count
+                self.args = [
+                    CaseExpr(
+                        [
+                            (
+                                functools.reduce(operator.and_, (cond for cond in filters)),
+                                LiteralCol(1),
+                            )
+                        ]
+                    )
+                ]
+                del self.context_kwargs["filter"]
             else:
                 self.args[0] = CaseExpr(
                     [
